@@ -5,6 +5,9 @@ package storage
 import (
 	"bytes"
 	"context"
+	"errors"
+	"fmt"
+	"io"
 	"strings"
 
 	zz "github.com/basekick-labs/arc/internal/zzverif"
@@ -89,6 +92,19 @@ func VerifC08Atomic() {
 			zz.Reach("append-without-prefix")
 		}
 	}
+	// the source of a streamed write may fail after any number of bytes, with a reset or with
+	// an error that wraps io.EOF (a peer that closed the connection cleanly mid-body)
+	failing := op == "writereader" && zz.Bool("source_fails")
+	cutAt := 0
+	var cutErr error
+	if failing {
+		cutAt = zz.Choice("source_fails_after", len(newData))
+		cutErr = errors.New("connection reset")
+		if zz.Bool("source_error_wraps_eof") {
+			cutErr = fmt.Errorf("stream body: %w", io.EOF)
+		}
+		zz.Reach("source-failed")
+	}
 	zz.FSCrashPoints(true)
 	zz.FSFaults(true)
 	var opErr error
@@ -97,7 +113,11 @@ func VerifC08Atomic() {
 		case "write":
 			opErr = b.Write(ctx, key, newData)
 		case "writereader":
-			opErr = b.WriteReader(ctx, key, bytes.NewReader(newData), int64(len(newData)))
+			var src io.Reader = bytes.NewReader(newData)
+			if failing {
+				src = &c08FailingReader{b: newData[:cutAt], err: cutErr}
+			}
+			opErr = b.WriteReader(ctx, key, src, int64(len(newData)))
 		default:
 			opErr = b.AppendReader(ctx, key, bytes.NewReader(newData[1:]), int64(len(newData)-1))
 		}
@@ -108,6 +128,9 @@ func VerifC08Atomic() {
 	isNew := exists && zz.EqBytes(got, newData)
 	isOld := exists && hadOld && zz.EqBytes(got, old)
 	zz.Assert(zz.Or(zz.Or(isNew, isOld), !exists && !hadOld), "final path holds something that is neither the previous content nor the complete new content")
+	if failing && !crashed {
+		zz.Assert(opErr != nil, "a streamed write whose source failed reported success")
+	}
 	if !crashed && opErr == nil {
 		zz.Assert(isNew, "operation reported success but the final path does not hold the new content")
 		zz.Reach("success")
@@ -118,6 +141,21 @@ func VerifC08Atomic() {
 	if !crashed && opErr != nil {
 		zz.Reach("failed")
 	}
+}
+
+type c08FailingReader struct {
+	b   []byte
+	pos int
+	err error
+}
+
+func (r *c08FailingReader) Read(p []byte) (int, error) {
+	if r.pos >= len(r.b) {
+		return 0, r.err
+	}
+	n := copy(p, r.b[r.pos:])
+	r.pos += n
+	return n, nil
 }
 
 func c08Run(f func()) (crashed bool) {
